@@ -223,7 +223,12 @@ def run_real(ops, backing=False):
     """Execute the history on the real machine.  Returns (machine, trace) where
     trace[k] describes what the reference must execute for op k."""
     s = sut()
-    m = s.H.x86_machine(_backing_read, _backing_write) if backing else s.H.x86_machine()
+    if backing == 'read-only':
+        m = s.H.x86_machine(_backing_read, None)        # a read callback only: stores to constant addresses stay in the pool
+    elif backing:
+        m = s.H.x86_machine(_backing_read, _backing_write)
+    else:
+        m = s.H.x86_machine()
     trace = []
     reuse_cache = {}
     for op in ops:
@@ -760,7 +765,7 @@ def gen_history(rng):
     else:
         for _ in range(n):
             ops.append({'op': 'insn', 'line': gen_arith_line(rng) if rng.random() < 0.7 else gen_move_line(rng)})
-    return {'mode': mode, 'base': base, 'nsym': max(nsym, 2), 'backing': base == 'const' and rng.random() < 0.3}, ops
+    return {'mode': mode, 'base': base, 'nsym': max(nsym, 2), 'backing': (rng.choice([True, 'read-only']) if (base == 'const' and rng.random() < 0.4) else False)}, ops
 
 # ------------------------------------------------------------ classification
 
